@@ -105,7 +105,7 @@ pub fn get_wallpaper_group<'a>(name: WallpaperGroups) -> Result<WallpaperGroup<'
             wyckoff_str: vec!["x,y", "-x,y"],
         }),
         WallpaperGroups::p1g1 => Ok(WallpaperGroup {
-            name: "p1m1",
+            name: "p1g1",
             family: CrystalFamily::Orthorhombic,
             wyckoff_str: vec!["x,y", "-x,y+1/2"],
         }),
